@@ -341,6 +341,30 @@ def run(world, rep, tier, only=None):
                "every path from ext2fs_block_iterate3() to an inode write passes a fresh inode read: stale writes at lines %s" %
                [w_.line for w_ in stale], wit)
 
+    # ------------------------------------------------------------------ C11.g dropping the UNINIT group flags materialises both bitmaps
+    # While uninit_bg/metadata_csum is on, the on-disk bitmap blocks of UNINIT groups are never written and never
+    # read.  Code that drops those flags makes the on-disk blocks authoritative, so both in-memory bitmaps must be
+    # marked dirty (and therefore written at close) on the way.
+    drops = []
+    for f in prog.fns_in_file(TF):
+        for n in f.events("S"):
+            if T.last_field(n.ev["lhs"]) == ("ext2_group_desc", "bg_flags") and \
+                    ((n.ev.get("o") == "=" and T.const(n.ev.get("rhs")) == 0) or
+                     (n.ev.get("o") == "&=" and {"EXT2_BG_INODE_UNINIT", "EXT2_BG_BLOCK_UNINIT"} & set(T.macros(n.ev.get("rhs") or {})))):
+                drops.append((f, n))
+        for n in calls_to(f, "ext2fs_bg_flags_zap"):
+            drops.append((f, n))
+        for n in calls_to(f, "ext2fs_bg_flags_clear"):
+            if {"EXT2_BG_INODE_UNINIT", "EXT2_BG_BLOCK_UNINIT"} & set(T.macros(arg(n, 2) or {})):
+                drops.append((f, n))
+    rep.floor("C11.g sites in tune2fs.c that drop the UNINIT group flags", len(drops), 1)
+    for i, (f, n) in enumerate(drops):
+        for mk, what in (("ext2fs_mark_ib_dirty", "inode"), ("ext2fs_mark_bb_dirty", "block")):
+            ms = calls_to(f, mk)
+            ok = bool(ms) and (f.dominated_by(n, ms) or f.must_pass_after(n, ms))
+            rep.ob("C11.g", site(f, "%s bitmap marked dirty where UNINIT flags are dropped#%d" % (what, i)), ok,
+                   "`%s` (line %d) lies behind, or is always followed by, %s()" % (n.text()[:30], n.line, mk))
+
 
 def _hurd_lit(a):
     return "EXT2_OS_HURD" in T.macros(a)
